@@ -395,6 +395,57 @@ func c12Run(c *verifeng.Chooser, depth, maxPeers int, bursts int) {
 				}
 			}
 			if bursts == 2 && len(batches) < 2 && len(h.parked) == 0 {
+				// a batch is handed in while a connected peer leaves, by
+				// two goroutines in one step: the hand-over of a job to a
+				// worker can then overlap its peer's departure
+				for _, p := range peers {
+					p := p
+					if p.gone {
+						continue
+					}
+					for _, queryFirst := range []bool{true, false} {
+						queryFirst := queryFirst
+						name := fmt.Sprintf("Query(1 request, default) and disconnect(%s) at once, ", p.name)
+						if queryFirst {
+							name += "Query running first"
+						} else {
+							name += "the disconnect running first"
+						}
+						menu = append(menu, ev{name, func() bool {
+							b := &c12batch{id: len(batches), optName: "default"}
+							b.reqs = append(b.reqs, nextReq)
+							reqs := []*query.Request{h.request(nextReq)}
+							nextReq++
+							q := func() { pendingTasks = append(pendingTasks, verifbubble.Go("Query", func() (any, error) { b.ch = wm.Query(reqs); return nil, nil })) }
+							d := func() { verifbubble.Go("disconnect", func() (any, error) { close(p.disc); return nil, nil }) }
+							p.gone = true
+							var keep []*c12out
+							for _, o := range h.outstanding {
+								if o.peer != p {
+									keep = append(keep, o)
+								}
+							}
+							h.outstanding = keep
+							if queryFirst {
+								d()
+								q()
+							} else {
+								q()
+								d()
+							}
+							verifbubble.Wait()
+							if b.ch == nil {
+								c.Fail("stuck", "not-serving:Query", "Query was not taken up although every goroutine is idle: the dispatcher has stopped serving")
+								return false
+							}
+							batches = append(batches, b)
+							return true
+						}})
+					}
+					break
+				}
+			}
+			if bursts == 2 && len(batches) < 2 && len(h.parked) == 0 {
 				// Query and Stop by two callers at once: with a
 				// preemption inside either, Stop may fall between two
 				// statements of Query
